@@ -3,7 +3,7 @@
 list, write replay artefacts and print VIOLATION / KNOWN-FINDING lines.
 Exit 0 = property held on everything explored (known findings aside),
 1 = unlisted violation, 2 = internal error."""
-import argparse, hashlib, json, os, re, sys, time
+import argparse, fnmatch, hashlib, json, os, re, sys, time
 
 ap = argparse.ArgumentParser()
 ap.add_argument('--prop', required=True)
@@ -29,7 +29,7 @@ def is_known(sig):
     for prop, pat, desc in known:
         if prop != a.prop:
             continue
-        if pat == sig or (pat.endswith('*') and sig.startswith(pat[:-1])):
+        if pat == sig or (('*' in pat or '?' in pat) and fnmatch.fnmatchcase(sig, pat)):
             return pat, desc
     return None
 
